@@ -712,8 +712,8 @@ SPEC = {
                     '(C14_decode_encode_decode) with the re-printing of reals (f32 Display o from_str) as a function canon specified by '
                     'the written-out float assumptions canon_spec (shape, idempotence; consistent: C14_canon_spec_consistent; validated '
                     'on the crate by the (real ...) cases) -- the assumptions themselves are about Rust std and are not proved; outside: '
-                    'open finding C14-real-overflow, and decoded operators that are exactly null/true/false or a lone BI (malformed '
-                    'tokens such as null1). The literal clause is evaluated on the implementation for every dec/decv case',
+                    'open findings C14-real-overflow and C14-keyword-residual (decoded operators that are exactly null/true/false or a lone '
+                    'BI: malformed tokens such as null1). The literal clause is evaluated on the implementation for every dec/decv case',
     'rule': 'byte-pair sweep rows (every second byte after a fixed first byte as name and as literal-string operand; all 65 536 pairs in '
             'the thorough tier); random operation sequences (operators over the parser alphabet incl. those beginning with null/true/false/BI, '
             '0-6 operands of every direct kind nested to depth 3, adversarial bytes in names/strings, f32 reals printed by Rust itself) '
@@ -749,12 +749,12 @@ MANIFEST = {
                   'escape letters, separator variants, alternative orders, depth limits, keyword / ID-separator / number shapes and the '
                   'encode shape are re-read from src/{writer,parser/mod,content,reader}.rs on every run; the model is tied to the crate '
                   'by differential runs.',
-    'level_note': 'Open known findings: C14-deep-nesting (operand containers nested deeper than reader::MAX_NESTING = 16) and C14-real-overflow (a real '
-                  'whose spelling overflows f32 is decoded to infinity and written as the operator inf). Fixed in this round: '
+    'level_note': 'Open known findings: C14-deep-nesting (operand containers nested deeper than reader::MAX_NESTING = 16), C14-real-overflow (a real '
+                  'whose spelling overflows f32 is decoded to infinity and written as the operator inf) and C14-keyword-residual (a keyword '
+                  'glued to a regular byte that is no operator character, e.g. null1, is decoded as an operator that is the keyword). Fixed in this round: '
                   'C14-keyword-operator (93a8a25), C14-image-leading-space (aee7de5). Clause (2) is proved under the written-out float '
                   'assumptions canon_spec about f32 Display/FromStr (consistent by C14_canon_spec_consistent; validated on the crate by a '
-                  'sweep of spellings); a decoded operator that is exactly null/true/false or a lone BI (only from malformed tokens such '
-                  'as null1) is outside it. Trusted: Coq kernel; translator part Lex; hand-written models Writer.v/Parser.v tied by '
+                  'sweep of spellings); the excluded class is a decidable predicate on the input (known_input, mirrored by classify). Trusted: Coq kernel; translator part Lex; hand-written models Writer.v/Parser.v tied by '
                   'correspondence (encoded bytes and decoded operations, valid and malformed streams); f32 Display/FromStr (Rust std: printed '
                   'shape, from_str(to_string x) = x, overflow bound 2^128 - 2^103); extraction/OCaml driver; Rust harness. No axioms (Print Assumptions: closed).',
     'technique': 'Coq proof: 256-case sweeps on regenerated byte sets + structural / nested induction with explicit continuations '
